@@ -893,6 +893,12 @@ func (p *Path) spawn(fr *frame, fn Value, args []Value) {
 		p.GoHook(fr, fn, args)
 		return
 	}
+	if p.bounds["go_inline"] == 1 {
+		// the spawned function runs to completion at the spawn point (sound only for goroutines that do not
+		// synchronise with their parent; harnesses that set this bound say so)
+		p.call(fr, fn, args)
+		return
+	}
 	panic(unmodelled{"go statement at " + fr.where()})
 }
 
